@@ -701,16 +701,20 @@ func convGuards(c *an.Ctx, rule string, only []string) {
 		for _, call := range calls {
 			n++
 			key := f.Name + "/Convert"
-			recv := an.Str(an.Unparen(an.Receiver(call)))
+			// the guard is <value>.Type().ConvertibleTo(<target>) for the very value and target of the Convert
+			// (ConvertibleTo is not symmetric: the swapped form proves nothing)
+			want := ""
+			if rk, ok := pr.X.Key(an.Receiver(call)); ok && len(call.Args) == 1 {
+				if tk, ok := pr.X.Key(call.Args[0]); ok {
+					want = an.PlainKey(rk) + ".Type().ConvertibleTo(" + an.PlainKey(tk) + ")"
+				}
+			}
 			guarded := len(pr.At[call]) > 0
 			for _, st := range pr.At[call] {
 				g := false
 				for k, v := range st.Facts {
 					pk := an.PlainKey(k)
-					if v && strings.Contains(pk, ".ConvertibleTo(") && strings.HasPrefix(pk, strings.TrimSuffix(recv, ")")) {
-						g = true
-					}
-					if v && strings.Contains(pk, ".ConvertibleTo(") && strings.Contains(pk, recv) {
+					if v && want != "" && pk == want {
 						g = true
 					}
 					// []byte-kind → string is always convertible
